@@ -193,6 +193,23 @@ def relabel_unit(ctx, unit):
             want = par * isoA.mv_to_ref(xA).get(m, 0)
             if not (coef_equal(a, b) and coef_equal(a, want)):
                 bad.append([sp, str(a), str(b), str(want)])
+            if rng.random() < 0.3:
+                # the same read written inside a registered (compiled) function, in both algebras
+                def through_register(alg_, x_):
+                    ns = {}
+                    exec(f'def read_{sp}(x):\n    return x.{sp}\n', ns)
+                    out = alg_.register(ns[f'read_{sp}'])(x_)
+                    return mv_dict(out).get(0, 0) if hasattr(out, 'keys') else out
+                stA, ra = ctx.guarded(20, through_register, A, xA)
+                stD, rd = ctx.guarded(20, through_register, D, xD)
+                if stA == 'ok' and stD == 'ok':
+                    ctx.count('accessor_reads_inside_registered_functions')
+                    if not (coef_equal(ra, rd) and coef_equal(ra, want)):
+                        bad.append([sp + ' (inside alg.register)', str(ra), str(rd), str(want)])
+                else:
+                    for st_, r_ in ((stA, ra), (stD, rd)):
+                        if st_ == 'exc':
+                            ctx.note_raised(r_, 'registered-accessor')
         ctx.case(cid)
         if bad:
             ctx.violation('coefficient accessor does not commute with the relabelling', cid, config=cfg,
